@@ -13,14 +13,26 @@ PALETTE = {a: "teal" for a in "ACDEFGHIKLMNPQRSTVWY"}
 TIER = ["quick"]
 
 
-def build():
+def build(only=None):
+    """The live world; with only=<name> just that object (used for the pristine single-object reference)."""
     from localcider.sequenceParameters import SequenceParameters as SP
-    objs = {"A": SP(SEQ_A), "A2": SP(SEQ_A), "B": SP(SEQ_B)}
-    objs["A"].set_phosphosites([1, 5])
-    objs["A2"].set_phosphosites([1, 5])
-    if TIER[0] == "thorough":
-        objs["C"] = SP(SEQ_C)
-        objs["P"] = SP("KEKEGSTYKE")
+    names = ["A", "A2", "B"] + (["C", "P"] if TIER[0] == "thorough" else [])
+    objs = {}
+    for n in names:
+        if only is not None and n != only:
+            continue
+        if n in ("A", "A2"):
+            objs[n] = SP(SEQ_A)
+        elif n == "B":
+            objs[n] = SP(SEQ_B)
+        elif n == "C":
+            objs[n] = SP(SEQ_C)
+        else:
+            objs[n] = SP("KEKEGSTYKE")
+    for n in ("A", "A2"):
+        if n in objs:
+            objs[n].set_phosphosites([1, 5])
+    if "P" in objs:
         objs["P"].set_HTMLColorResiduePalette(dict(PALETTE))
     return objs
 
@@ -127,9 +139,11 @@ def _expander():
 
 
 def task_ref(i):
-    """Pristine single-call result of op i (first and only call in a fresh world)."""
+    """Pristine result of op i: first and only call, in a fresh world in which ONLY its own object exists."""
     e = _expander()
-    objs = e.rebuild([])
+    H.fresh_world()
+    with core.quiet():
+        objs = build(only=e.ops[i][0].split(".", 1)[0])
     return i, H.run_op(e.ops[i], objs)
 
 
@@ -145,7 +159,9 @@ def replay(case):
     names = [o[0] for o in e.ops]
     hist = [names.index(n) for n in case["history"]]
     i = names.index(case["op"])
-    ref = H.run_op(e.ops[i], e.rebuild([]))
+    H.fresh_world()
+    with core.quiet():
+        ref = H.run_op(e.ops[i], build(only=case["op"].split(".", 1)[0]))
     objs = e.rebuild(hist)
     got = H.run_op(e.ops[i], objs)
     out = []
@@ -237,7 +253,7 @@ def run(tier, seed, t0):
              "HTML string); BFS over call histories: state = canonical serialisation of every live object's attributes + defaults/"
              "attributes/closures of every localcider function + every module global and class attribute + numpy/matplotlib global "
              "settings; a history is expanded only if its state is new, search runs to the fixpoint (no depth bound); oracle: every "
-             "result must be bit-identical to the same call made first on a fresh object in a pristine world, stored sequence and "
+             "result must be bit-identical to the same call made first on a fresh object that is ALONE in a pristine world, stored sequence and "
              "phosphosites unchanged; merge validation: up to %d alternative histories per state are expanded too and must agree "
              "on every result and successor state; non-trivial = states other than the initial one; transitions = (state, call) "
              "pairs executed" % (sorted(build.__code__.co_consts and (["A", "A2", "B"] + (["C", "P"] if tier == "thorough" else []))),
